@@ -1,6 +1,7 @@
 package rules
 
 import (
+	"fmt"
 	"go/types"
 	"sort"
 	"strings"
@@ -18,6 +19,86 @@ import (
 func init() {
 	an.FuncFallback = roleFallback
 	an.TypeAlias = typeAlias
+	an.FieldAliasHook = fieldAliasHook
+}
+
+var fieldAliasCache = map[string]string{}
+
+// fieldAliasHook tells the two variable containers of a TaskRunner apart when they were renamed: "env" is the one
+// the constructor fills from a map literal that defines ARGS, "variables" the other one.
+func fieldAliasHook(named *types.Named, st *types.Struct, i int) string {
+	p := an.CurrentProg
+	if p == nil || an.TypeName(named) != "TaskRunner" || named.Obj().Pkg() == nil || !strings.HasSuffix(named.Obj().Pkg().Path(), "pkg/runner") {
+		return ""
+	}
+	isContainer := func(t types.Type) bool { return an.TypeIs(t, "pkg/variables", "Container") }
+	if !isContainer(st.Field(i).Type()) {
+		return ""
+	}
+	key := fmt.Sprintf("%p|%d", p, i)
+	if a, ok := fieldAliasCache[key]; ok {
+		return a
+	}
+	fieldAliasCache[key] = ""
+	has := map[string]bool{}
+	var containers []int
+	for j := 0; j < st.NumFields(); j++ {
+		has[st.Field(j).Name()] = true
+		if isContainer(st.Field(j).Type()) {
+			containers = append(containers, j)
+		}
+	}
+	if len(containers) != 2 || (has["env"] && has["variables"]) {
+		return ""
+	}
+	ctor := p.Func("pkg/runner", "", "NewTaskRunner")
+	if ctor == nil {
+		return ""
+	}
+	envIdx := -1
+	an.EachInstr(ctor, func(in ssa.Instruction) {
+		sto, ok := in.(*ssa.Store)
+		if !ok {
+			return
+		}
+		fa, ok := sto.Addr.(*ssa.FieldAddr)
+		if !ok || an.Deref(fa.X.Type()) != types.Type(named) {
+			return
+		}
+		call, ok := sto.Val.(*ssa.Call)
+		if !ok || len(call.Call.Args) == 0 {
+			return
+		}
+		// FromMap(map[string]string{"ARGS": …})
+		definesArgs := false
+		if mm, ok := call.Call.Args[0].(*ssa.MakeMap); ok && mm.Referrers() != nil {
+			for _, r := range *mm.Referrers() {
+				if mu, ok := r.(*ssa.MapUpdate); ok {
+					if k, ok := an.ConstString(mu.Key); ok && k == "ARGS" {
+						definesArgs = true
+					}
+				}
+			}
+		}
+		if definesArgs {
+			envIdx = fa.Field
+		}
+	})
+	if envIdx < 0 {
+		return ""
+	}
+	alias := ""
+	switch {
+	case i == envIdx && !has["env"]:
+		alias = "env"
+	case i != envIdx && !has["variables"]:
+		alias = "variables"
+	}
+	if alias == st.Field(i).Name() {
+		alias = ""
+	}
+	fieldAliasCache[key] = alias
+	return alias
 }
 
 // typeAlias: the reference name of a module type that a tree has renamed (or un-exported), by shape. A name is
@@ -71,10 +152,58 @@ func hasMethod(n *types.Named, name string) bool {
 	return false
 }
 
+// the decoded document and its parts are known by the document schema: the exported field names mapstructure fills
+func hasFields(n *types.Named, names ...string) bool {
+	st, ok := n.Underlying().(*types.Struct)
+	if !ok {
+		return false
+	}
+	have := map[string]bool{}
+	for i := 0; i < st.NumFields(); i++ {
+		have[st.Field(i).Name()] = true
+	}
+	for _, nm := range names {
+		if !have[nm] {
+			return false
+		}
+	}
+	return true
+}
+
 var typeShapes = []struct {
 	pkg, name string
 	is        func(n *types.Named) bool
 }{
+	{"internal/config", "configDefinition", func(n *types.Named) bool {
+		// (the built Config has the same section names; the document's Variables are still a plain map)
+		st, ok := n.Underlying().(*types.Struct)
+		if !ok || !hasFields(n, "Import", "Contexts", "Pipelines", "Tasks", "Watchers", "Variables") {
+			return false
+		}
+		for i := 0; i < st.NumFields(); i++ {
+			if st.Field(i).Name() == "Variables" {
+				_, isMap := st.Field(i).Type().Underlying().(*types.Map)
+				return isMap && !n.Obj().Exported()
+			}
+		}
+		return false
+	}},
+	{"internal/config", "taskDefinition", func(n *types.Named) bool {
+		return hasFields(n, "Command", "Before", "After", "Variations", "Timeout", "AllowFailure")
+	}},
+	{"internal/config", "stageDefinition", func(n *types.Named) bool {
+		return hasFields(n, "Task", "Pipeline", "DependsOn", "AllowFailure") && !hasFields(n, "Command")
+	}},
+	{"internal/config", "contextDefinition", func(n *types.Named) bool {
+		return hasFields(n, "Executable", "Up", "Down") || hasFields(n, "Up", "Down", "Before", "After", "Env")
+	}},
+	{"internal/config", "watcherDefinition", func(n *types.Named) bool {
+		return hasFields(n, "Events", "Watch", "Exclude", "Task")
+	}},
+	{"internal/config", "loaderContext", func(n *types.Named) bool {
+		st, ok := n.Underlying().(*types.Struct)
+		return ok && st.NumFields() == 1 && hasFields(n, "Dir")
+	}},
 	// the one implementation of variables.Container
 	{"pkg/variables", "Variables", func(n *types.Named) bool {
 		if _, ok := n.Underlying().(*types.Struct); !ok {
@@ -128,7 +257,17 @@ func sigIs(fn *ssa.Function, params []string, results []string) bool {
 	}
 	match := func(t types.Type, want string) bool {
 		s := strings.ReplaceAll(t.String(), an.ModulePath+"/", "")
-		return s == want
+		if s == want {
+			return true
+		}
+		// a pointer to a module type known under its reference name
+		if pt, ok := t.(*types.Pointer); ok {
+			if n, ok := pt.Elem().(*types.Named); ok && n.Obj().Pkg() != nil && an.TypeName(n) != n.Obj().Name() {
+				rel := strings.TrimPrefix(strings.TrimPrefix(n.Obj().Pkg().Path(), an.ModulePath), "/")
+				return "*"+rel+"."+an.TypeName(n) == want
+			}
+		}
+		return false
 	}
 	for i, w := range params {
 		if !match(sig.Params().At(i).Type(), w) {
